@@ -1,7 +1,567 @@
 package main
 
-import "fmt"
+import (
+	"bufio"
+	"crypto/sha256"
+	"encoding/json"
+	"fmt"
+	"os"
+	"path/filepath"
+	"regexp"
+	"sort"
+	"strings"
+	"time"
+)
+
+var reDup = regexp.MustCompile(`~\d+$`)
+
+func baseName(n string) string { return reDup.ReplaceAllString(n, "") }
+
+func isAuxClass(n string) bool {
+	i := strings.Index(n, "#")
+	if i < 0 {
+		return false
+	}
+	k := n[i+1:]
+	for _, p := range []string{"nil:", "index:", "divzero", "frame:", "slice:", "shift:", "makeslice", "nilmap", "unsafe:", "unreachable:"} {
+		if strings.HasPrefix(k, p) {
+			return true
+		}
+	}
+	return false
+}
+
+func shortObl(n string) string {
+	n = strings.ReplaceAll(n, "github.com/dgraph-io/ristretto/v2/", "")
+	n = strings.ReplaceAll(n, "github.com/dgraph-io/ristretto/v2", "ristretto")
+	return n
+}
+
+// ---- property cones ---------------------------------------------------------------
+
+func hasTag(tags []string, p string) bool {
+	for _, t := range tags {
+		if t == p {
+			return true
+		}
+	}
+	return false
+}
+
+func (e *Engine) taggedFuncs(prop string) (keys []string, lemmas []*Lemma) {
+	for k, fi := range e.infos {
+		c := fi.C
+		tagged := false
+		for _, cl := range c.Requires {
+			tagged = tagged || hasTag(cl.Tags, prop)
+		}
+		for _, cl := range c.Ensures {
+			tagged = tagged || hasTag(cl.Tags, prop)
+		}
+		for _, cls := range c.LoopInv {
+			for _, cl := range cls {
+				tagged = tagged || hasTag(cl.Tags, prop)
+			}
+		}
+		for _, p := range strings.Split(c.Attrs["property"], ",") {
+			if strings.TrimSpace(p) == prop {
+				tagged = true
+			}
+		}
+		if tagged {
+			keys = append(keys, k)
+		}
+	}
+	sort.Strings(keys)
+	for _, cf := range e.cfiles {
+		for _, l := range cf.Lemmas {
+			if hasTag(l.Tags, prop) {
+				lemmas = append(lemmas, l)
+			}
+		}
+	}
+	return
+}
+
+// ---- lock file, known findings -------------------------------------------------------
+
+type lockFile map[string]map[string]bool // property -> obligation class
+
+func readLock(path string) lockFile {
+	lf := lockFile{}
+	f, err := os.Open(path)
+	if err != nil {
+		return lf
+	}
+	defer f.Close()
+	sc := bufio.NewScanner(f)
+	sc.Buffer(make([]byte, 1<<20), 1<<20)
+	for sc.Scan() {
+		l := sc.Text()
+		if strings.HasPrefix(l, "#") || strings.TrimSpace(l) == "" {
+			continue
+		}
+		p := strings.SplitN(l, "\t", 2)
+		if len(p) != 2 {
+			continue
+		}
+		if lf[p[0]] == nil {
+			lf[p[0]] = map[string]bool{}
+		}
+		lf[p[0]][p[1]] = true
+	}
+	return lf
+}
+
+type finding struct {
+	Kind, Prop, Obl, Text string
+}
+
+func readFindings(path string) []finding {
+	var out []finding
+	data, err := os.ReadFile(path)
+	if err != nil {
+		return nil
+	}
+	for _, l := range strings.Split(string(data), "\n") {
+		l = strings.TrimSpace(l)
+		if l == "" || strings.HasPrefix(l, "#") {
+			continue
+		}
+		// finding: property=C20 obligation=<class> <text>      |  fixed: property=C20 <commit> <text>
+		f := finding{}
+		if strings.HasPrefix(l, "finding:") {
+			f.Kind = "finding"
+			l = strings.TrimSpace(strings.TrimPrefix(l, "finding:"))
+		} else if strings.HasPrefix(l, "fixed:") {
+			f.Kind = "fixed"
+			l = strings.TrimSpace(strings.TrimPrefix(l, "fixed:"))
+		} else {
+			continue
+		}
+		for _, w := range strings.Fields(l) {
+			if strings.HasPrefix(w, "property=") {
+				f.Prop = strings.TrimPrefix(w, "property=")
+			} else if strings.HasPrefix(w, "obligation=") {
+				f.Obl = strings.TrimPrefix(w, "obligation=")
+			}
+		}
+		f.Text = l
+		out = append(out, f)
+	}
+	return out
+}
+
+// ---- the check command ---------------------------------------------------------------
+
+type oblReport struct {
+	Name    string  `json:"name"`
+	Status  string  `json:"status"`
+	Backend string  `json:"backend,omitempty"`
+	TimeS   float64 `json:"solver_s,omitempty"`
+	Tags    []string `json:"tags,omitempty"`
+}
+
+type funcReport struct {
+	Contract string `json:"contract"`
+	Function string `json:"function"`
+	SSAHash  string `json:"ssa_sha256,omitempty"`
+	Obligations int `json:"obligations"`
+	Discharged  int `json:"discharged"`
+	Trusted  string `json:"trusted,omitempty"`
+	Error    string `json:"engine_error,omitempty"`
+}
+
+func ssaHash(fn *ssaFn) string {
+	if fn == nil || fn.Blocks == nil {
+		return ""
+	}
+	var b strings.Builder
+	fn.WriteTo(&b)
+	h := sha256.Sum256([]byte(b.String()))
+	return fmt.Sprintf("%x", h[:8])
+}
+
+type checkResult struct {
+	violations []string
+	known      []string
+	hardErrors []string
+	results    []*FuncResult
+	obligations, discharged int
+	undecided  []string
+	wall       float64
+}
 
 func runCommand(cmd, repo, verif, prop, tier string, seed int, args []string, timeout int) error {
-	return fmt.Errorf("command %q not implemented yet", cmd)
+	switch cmd {
+	case "check":
+		if prop == "" {
+			return fmt.Errorf("check needs --property")
+		}
+		code, err := checkProperty(repo, verif, prop, tier, seed, timeout, true)
+		if err != nil {
+			return err
+		}
+		os.Exit(code)
+	case "lock":
+		return writeLock(repo, verif, args, timeout)
+	case "replay":
+		if len(args) != 1 {
+			return fmt.Errorf("replay needs a path")
+		}
+		return replayFile(repo, verif, args[0])
+	case "selftest":
+		return selftest(repo, verif, args, tier)
+	}
+	return fmt.Errorf("unknown command %q", cmd)
+}
+
+// verifyCone verifies every function in the cone of a property.
+func verifyCone(e *Engine, prop string) []*FuncResult {
+	keys, lemmas := e.taggedFuncs(prop)
+	done := map[string]bool{}
+	var results []*FuncResult
+	for len(keys) > 0 {
+		var next []string
+		for _, k := range keys {
+			if done[k] {
+				continue
+			}
+			done[k] = true
+			r := e.verifyFunc(k)
+			results = append(results, r)
+			if r.VC != nil {
+				for u := range r.VC.usedContracts {
+					if !done[u] {
+						next = append(next, u)
+					}
+				}
+				for _, l := range r.VC.usedLemmas {
+					if !done["lemma:"+l.Name] {
+						done["lemma:"+l.Name] = true
+						lemmas = append(lemmas, l)
+					}
+				}
+			}
+		}
+		sort.Strings(next)
+		keys = next
+	}
+	seen := map[*Lemma]bool{}
+	for _, l := range lemmas {
+		if seen[l] {
+			continue
+		}
+		seen[l] = true
+		r := e.verifyLemma(l)
+		results = append(results, r)
+	}
+	return results
+}
+
+func checkProperty(repo, verif, prop, tier string, seed, timeout int, writeEvidence bool) (int, error) {
+	t0 := time.Now()
+	e, err := loadEngine(repo, "")
+	if err != nil {
+		// a tree that no longer type-checks against the contracts is a violation of every
+		// locked obligation (a function was renamed or its signature changed)
+		lock := readLock(filepath.Join(verif, "obligations.lock"))
+		if len(lock[prop]) > 0 && strings.Contains(err.Error(), "contracts") {
+			rp := filepath.Join(verif, "replay", prop+"-contracts-do-not-typecheck.json")
+			os.MkdirAll(filepath.Dir(rp), 0o755)
+			js, _ := json.MarshalIndent(map[string]interface{}{"property": prop, "obligation": "all locked obligations (contracts no longer type-check against the tree)", "solver_output": err.Error()}, "", " ")
+			os.WriteFile(rp, js, 0o644)
+			fmt.Printf("VIOLATION property=%s replay=%s no-failing-input-found\n", prop, rp)
+			return 1, nil
+		}
+		return 2, err
+	}
+	results := verifyCone(e, prop)
+	to := 10 * time.Second
+	all := false
+	if tier == "thorough" {
+		to = 120 * time.Second
+		all = true
+	}
+	if timeout > 0 {
+		to = time.Duration(timeout) * time.Second
+	}
+	outDir := filepath.Join(verif, "out", prop+"-"+tier)
+	os.RemoveAll(outDir)
+	dischargeAll(results, solveOpts{OutDir: outDir, Timeout: to, Seed: seed, All: all, Jobs: 6})
+	lock := readLock(filepath.Join(verif, "obligations.lock"))[prop]
+	findings := readFindings(filepath.Join(verif, "KNOWN_FINDINGS.txt"))
+	isKnown := func(name string) *finding {
+		b := shortObl(baseName(name))
+		for i := range findings {
+			f := &findings[i]
+			if f.Kind == "finding" && f.Prop == prop && f.Obl == b {
+				return f
+			}
+		}
+		return nil
+	}
+	cr := &checkResult{results: results}
+	classSeen := map[string]bool{}
+	var oreps []oblReport
+	var freps []funcReport
+	var assumptions []string
+	addAss := func(s string) {
+		for _, a := range assumptions {
+			if a == s {
+				return
+			}
+		}
+		assumptions = append(assumptions, s)
+	}
+	smokeOK, smokeTotal := 0, 0
+	var samples []interface{}
+	reportedKnown := map[string]bool{}
+	for _, r := range results {
+		fr := funcReport{Contract: r.Key, Function: shortObl(r.Fn), Trusted: r.Trusted, Error: r.Err}
+		if fn := e.fnOf[r.Key]; fn != nil {
+			fr.SSAHash = ssaHash(fn)
+		}
+		if r.Trusted != "" {
+			addAss("trusted contract (assumed, body not verified): " + r.Key + " -- " + r.Trusted)
+		}
+		if r.Err != "" {
+			cr.hardErrors = append(cr.hardErrors, r.Key+": "+r.Err)
+		}
+		for _, a := range r.Assumptions {
+			addAss(a)
+		}
+		for _, o := range r.Obls {
+			if o.Kind != "assert" {
+				smokeTotal++
+				if o.Status == "vacuous" {
+					cr.hardErrors = append(cr.hardErrors, "vacuity: "+o.Name+" (the assumptions at this point are contradictory)")
+				} else {
+					smokeOK++
+				}
+				continue
+			}
+			cls := shortObl(baseName(o.Name))
+			classSeen[cls] = true
+			fr.Obligations++
+			cr.obligations++
+			oreps = append(oreps, oblReport{Name: shortObl(o.Name), Status: o.Status, Backend: o.Backend, TimeS: o.Time, Tags: o.Tags})
+			if o.Status == "discharged" {
+				fr.Discharged++
+				cr.discharged++
+				if len(samples) < 3 && !isAuxClass(o.Name) && o.Backend != "trivial" {
+					samples = append(samples, map[string]interface{}{"obligation": shortObl(o.Name), "backend": o.Backend, "solver_s": o.Time,
+						"goal_smt_excerpt": excerpt(o.Goal, 400)})
+				}
+				continue
+			}
+			if f := isKnown(o.Name); f != nil {
+				if !reportedKnown[f.Text] {
+					reportedKnown[f.Text] = true
+					cr.known = append(cr.known, fmt.Sprintf("KNOWN-FINDING: property=%s %s", prop, strings.TrimSpace(strings.TrimPrefix(f.Text, "property="+prop))))
+				}
+				continue
+			}
+			switch o.Status {
+			case "refuted":
+				rp, reproduced := makeReplay(e, verif, prop, r, o)
+				if reproduced {
+					cr.violations = append(cr.violations, fmt.Sprintf("VIOLATION property=%s replay=%s", prop, rp))
+				} else {
+					cr.violations = append(cr.violations, fmt.Sprintf("VIOLATION property=%s replay=%s no-failing-input-found", prop, rp))
+				}
+			default:
+				if lock[cls] {
+					rp := writeReplayStub(verif, prop, o, "locked obligation no longer discharges ("+o.Status+")")
+					cr.violations = append(cr.violations, fmt.Sprintf("VIOLATION property=%s replay=%s no-failing-input-found", prop, rp))
+				} else {
+					cr.undecided = append(cr.undecided, shortObl(o.Name)+" ("+o.Status+")")
+				}
+			}
+		}
+		freps = append(freps, fr)
+	}
+	// locked classes that were not generated at all
+	var missing []string
+	for cls := range lock {
+		if !classSeen[cls] && !isAuxClass(cls) {
+			missing = append(missing, cls)
+		}
+	}
+	sort.Strings(missing)
+	for _, cls := range missing {
+		if isKnown(cls) != nil {
+			continue
+		}
+		o := &Obl{Name: cls, Status: "missing", Output: "the obligation was discharged on the unchanged tree and is no longer generated (function or clause removed, renamed, or its VC generation failed): " + strings.Join(cr.hardErrors, "; ")}
+		rp := writeReplayStub(verif, prop, o, "locked obligation missing")
+		cr.violations = append(cr.violations, fmt.Sprintf("VIOLATION property=%s replay=%s no-failing-input-found", prop, rp))
+	}
+	cr.wall = time.Since(t0).Seconds()
+	if writeEvidence {
+		level := e.levelOf(verif, prop)
+		ev := map[string]interface{}{
+			"property_id": prop, "tier": tier, "seed": seed, "level": level, "wall_s": cr.wall,
+			"violations": len(cr.violations), "assumptions": append(assumptions, globalAssumptions...),
+		}
+		if len(samples) == 0 {
+			samples = append(samples, "no non-trivial obligation discharged")
+		}
+		cov := map[string]interface{}{
+			"obligations": cr.obligations, "discharged": cr.discharged,
+			"checker_cmd": fmt.Sprintf("/verif/bin/govc check --property %s --tier %s", prop, tier),
+			"trusted_base": trustedBase, "samples": samples,
+			"functions_under_contract": freps, "obligation_results": oreps,
+			"undecided_not_locked": cr.undecided, "vacuity_checks": map[string]int{"run": smokeTotal, "ok": smokeOK},
+			"locked_classes": len(lock), "known_findings_reported": cr.known,
+			"engine_errors": cr.hardErrors,
+			"explanation": explanationFor(prop, cr),
+			"arithmetic": "machine integers are exact bit-vectors (no mathematical-integer abstraction); references are unbounded integers; time.Time is a real number of seconds",
+		}
+		ev["coverage"] = cov
+		os.MkdirAll(filepath.Join(verif, "evidence"), 0o755)
+		js, _ := json.MarshalIndent(ev, "", " ")
+		os.WriteFile(filepath.Join(verif, "evidence", prop+".json"), js, 0o644)
+	}
+	for _, k := range cr.known {
+		fmt.Println(k)
+	}
+	for _, v := range cr.violations {
+		fmt.Println(v)
+	}
+	fmt.Printf("property %s: %d/%d obligations discharged, %d undecided (not locked), %d violations, %d known findings, %.1fs\n",
+		prop, cr.discharged, cr.obligations, len(cr.undecided), len(cr.violations), len(cr.known), cr.wall)
+	if len(cr.violations) > 0 {
+		return 1, nil
+	}
+	for _, he := range cr.hardErrors {
+		fmt.Fprintln(os.Stderr, "engine:", he)
+	}
+	// engine errors and vacuity failures are not violations; they make the run unusable
+	for _, he := range cr.hardErrors {
+		if strings.HasPrefix(he, "vacuity:") {
+			return 2, nil
+		}
+	}
+	return 0, nil
+}
+
+func excerpt(s string, n int) string {
+	if len(s) > n {
+		return s[:n] + "..."
+	}
+	return s
+}
+
+var trustedBase = []string{
+	"Go toolchain 1.25.0 and golang.org/x/tools/go/ssa v0.29.0 (source -> SSA translation)",
+	"govc: symbolic executor over SSA, built-in models of append/copy/make/len/cap, map theory instances, trigger inference",
+	"SMT solvers z3 4.8.12, z3 5.1.0, cvc5 1.0.3 (an unsat answer from one of them is accepted)",
+	"Go semantics: mutex mutual exclusion, channel FIFO, sequentially consistent atomics",
+}
+
+var globalAssumptions = []string{
+	"type parameters are identified by name across the methods of a generic type",
+	"user callbacks (OnEvict, OnReject, OnExit, Cost, ShouldUpdate, KeyToHash, IterValues callback) are functions of their arguments and do not re-enter the cache",
+	"memory reached through two differently typed slices does not alias (except the modelled []uint64 / *uint8 view in z/bbloom.go)",
+}
+
+func explanationFor(prop string, cr *checkResult) string {
+	return fmt.Sprintf("Contract-based deductive verification: the functions in this property's cone are symbolically executed from /repo's current SSA against their contracts (kept in the comment-only contracts_verif.go files); every generated obligation is discharged by an SMT solver for all inputs and all loop iterations. %d obligations generated, %d discharged.", cr.obligations, cr.discharged)
+}
+
+func (e *Engine) levelOf(verif, prop string) string {
+	data, err := os.ReadFile(filepath.Join(verif, "MANIFEST.json"))
+	if err != nil {
+		return "proof"
+	}
+	var m struct {
+		Checks []struct {
+			PropertyID string `json:"property_id"`
+			Level      struct {
+				Category string `json:"category"`
+			} `json:"level_claimed"`
+		} `json:"checks"`
+	}
+	if json.Unmarshal(data, &m) == nil {
+		for _, c := range m.Checks {
+			if c.PropertyID == prop && c.Level.Category != "" {
+				return c.Level.Category
+			}
+		}
+	}
+	return "proof"
+}
+
+func writeReplayStub(verif, prop string, o *Obl, why string) string {
+	dir := filepath.Join(verif, "replay")
+	os.MkdirAll(dir, 0o755)
+	p := filepath.Join(dir, prop+"-"+sanitize(shortObl(o.Name))+".json")
+	js, _ := json.MarshalIndent(map[string]interface{}{
+		"property": prop, "obligation": shortObl(o.Name), "status": o.Status, "reason": why,
+		"solver_output": o.Output, "failing_input": nil,
+	}, "", " ")
+	os.WriteFile(p, js, 0o644)
+	return p
+}
+
+// writeLock records every obligation class that discharges on the current tree.
+func writeLock(repo, verif string, props []string, timeout int) error {
+	if len(props) == 0 {
+		for i := 1; i <= 20; i++ {
+			props = append(props, fmt.Sprintf("C%02d", i))
+		}
+	}
+	old := readLock(filepath.Join(verif, "obligations.lock"))
+	e, err := loadEngine(repo, "")
+	if err != nil {
+		return err
+	}
+	to := 10 * time.Second
+	if timeout > 0 {
+		to = time.Duration(timeout) * time.Second
+	}
+	for _, p := range props {
+		results := verifyCone(e, p)
+		if len(results) == 0 {
+			delete(old, p)
+			continue
+		}
+		dischargeAll(results, solveOpts{OutDir: filepath.Join(verif, "out", "lock-"+p), Timeout: to, Seed: 0, Jobs: 6})
+		classes := map[string]bool{}
+		bad := map[string]bool{}
+		n := 0
+		for _, r := range results {
+			for _, o := range r.Obls {
+				if o.Kind != "assert" {
+					continue
+				}
+				cls := shortObl(baseName(o.Name))
+				// only lock what discharges comfortably (well under the quick timeout)
+				if o.Status == "discharged" && o.Time < to.Seconds()/2 {
+					classes[cls] = true
+				} else {
+					bad[cls] = true
+					fmt.Printf("not locked (%s, %.1fs): %s\n", o.Status, o.Time, cls)
+				}
+			}
+		}
+		old[p] = map[string]bool{}
+		for c := range classes {
+			if !bad[c] {
+				old[p][c] = true
+				n++
+			}
+		}
+		fmt.Printf("%s: %d obligation classes locked\n", p, n)
+	}
+	var lines []string
+	for p, cs := range old {
+		for c := range cs {
+			lines = append(lines, p+"\t"+c)
+		}
+	}
+	sort.Strings(lines)
+	hdr := "# obligation classes discharged on the unchanged tree, per property (written by `govc lock`; never edited at run time)\n"
+	return os.WriteFile(filepath.Join(verif, "obligations.lock"), []byte(hdr+strings.Join(lines, "\n")+"\n"), 0o644)
 }
